@@ -92,6 +92,14 @@ var c09Check = register("C09", "c09.size", func(c *sizeCase) error {
 		}
 		n := int(c.N)
 		sig := fmt.Sprintf("C09 count n=%d", n)
+		if c.Extra&2 != 0 {
+			// a validation first (whatever it leaves behind must not matter to the size gate)
+			implCheck("legal winner thank year wave sausage worth useful legal winner thank yellow", bip39.English)
+		}
+		if c.Extra&4 != 0 {
+			implValid("abandon abandon abandon abandon abandon abandon abandon abandon abandon abandon abandon about", bip39.English)
+			implCheck("zoo zoo zoo zoo zoo zoo zoo zoo zoo zoo zoo wrong", bip39.English)
+		}
 		src := &countingReader{eofWithData: c.Extra%2 == 1}
 		prev := bip39.VerifSwapRandSource(src)
 		got, err, p := implNew(n, lang)
@@ -192,6 +200,8 @@ func TestC09_Range(t *testing.T) {
 			for _, l := range c09Langs {
 				run(&sizeCase{Op: "count", N: n, Lang: l})
 				run(&sizeCase{Op: "count", N: n, Lang: l, Extra: 1}) // the source reports EOF together with the data
+				run(&sizeCase{Op: "count", N: n, Lang: l, Extra: 2}) // right after a validation
+				run(&sizeCase{Op: "count", N: n, Lang: l, Extra: 4}) // right after other validations
 			}
 			continue
 		}
